@@ -23,7 +23,9 @@ RULE = ('cases: (lib) arbitrary triple lists (duplicates, foreign tops, disconne
         '(only role errors allowed); (tool) 1..3 input sources (stdin or files) each with 0..3 graphs, compliant and non-compliant mixed in '
         'every order, --amr / --model FILE / default. Non-trivial: (lib) the reference reports >= 1 error; (tool) >= 2 sources or a mix of '
         'failing and passing graphs. Distinct by case content.')
-ASSUMPTIONS = ['reference: a role is valid iff some role pattern (or the top/concept role) matches it completely, directly or after removing one '
+ASSUMPTIONS = ['the clause "a decoded graph only receives role errors" is asserted for texts that do not spell the concept relation as an explicit :instance role '
+               '(a nested node under ":instance" hangs off its parent by a concept link only: the decoded graph is disconnected and encode() refuses it as well)',
+               'reference: a role is valid iff some role pattern (or the top/concept role) matches it completely, directly or after removing one '
                '"-of"; unreachable = source not weakly connected to the top through edges (non-instance triples whose target is a source)',
                'messages are compared per triple as sets (multiplicity for duplicate triples is not asserted)',
                'tool output is read back with penman.loads (decided by C07/C09) to find each graph\'s metadata block',
@@ -79,7 +81,9 @@ def check_lib(case):
                 f.append(('unknown-message', '%s: %r' % (lab, x)))
         if not ms:
             f.append(('empty-entry', '%s: %r' % (lab, t)))
-    if case['k'] == 'decoded' and node[0] is not None:
+    def _explicit_instance(nd):
+        return any(r.split('~')[0] == ':instance' or (not interp.is_atom(x) and _explicit_instance(x)) for r, x in nd[1])
+    if case['k'] == 'decoded' and node[0] is not None and not _explicit_instance(node):
         bad = {x for ms in errs.values() for x in ms} - {'invalid role'}
         if bad:
             f.append(('decoded-graph-non-role-error', '%s: %r' % (lab, sorted(bad))))
